@@ -166,7 +166,7 @@ let run_case id main files stddir =
           | _ -> "") in
       (* the source semantics J of the simulation theorems, by its interpreter (Sem/JRun.v), when the program is in its fragment *)
       let flat = flat ^ (match JRun.jprogram (nat_of_int 20000) body with
-          | Some out -> " jout=" ^ hex_of_bytes out
+          | Some out -> " jout=" ^ hex_of_bytes out ^ (if ProgramPreserve.program_static body then " jstatic=1" else " jstatic=0")
           | None -> "") in
       (match Src.run run_fuel [] [] body with
        | Src.Ran (out, status, _) -> Printf.printf "run %s transpile=ok out=%s status=%s stderr=%s\n" id (hex_of_bytes out) (z_to_string status) flat
